@@ -159,7 +159,7 @@ def run(ctx):
 
     # ------------------------------------------------------------ R2 per-modifier conversions
     _unit_modifiers(ctx, r2, bm, ps)
-    r5 = ctx.rule("C18.R5", "ROUNDTRIP: writer and reader COMPOSED by interpretation (XML elements and the ROOT histogram store are modelled; numbers travel as text and back): a channel with two samples carrying all seven modifier types, its observation and a measurement with a fixed luminosity, a configured normalisation factor and a fixed constrained parameter are written by build_channel / build_measurement and read by process_channel / process_measurements; channel name, observation, sample names and yields, every modifier with its data, the POI, the luminosity value and width, the normfactor settings and the constant flags must come back (positive and negative yields)", "ROUNDTRIP", floor=2)
+    r5 = ctx.rule("C18.R5", "ROUNDTRIP: writer and reader COMPOSED by interpretation (XML elements and the ROOT histogram store are modelled; numbers travel as text and back): a channel with two samples carrying all seven modifier types, its observation and two measurements (one with a fixed luminosity, a configured normalisation factor and a fixed constrained parameter; one in which nothing is constant) are written by build_channel / build_measurement and read by process_channel / process_measurements; channel name, observation, sample names and yields, every modifier with its data, the POI, the luminosity value and width, the normfactor settings and the constant flags must come back (positive and negative yields)", "ROUNDTRIP", floor=2)
     _roundtrip(ctx, r5, repo)
 
     # ------------------------------------------------------------ R3
@@ -262,7 +262,7 @@ def run(ctx):
         keyed = [n for n in ast.walk(irh.node) if isinstance(n, ast.Assign) and isinstance(n.targets[0], ast.Subscript) and A.dotted(n.targets[0].value) == "filecache"]
         key_txt = A.unparse(keyed[0].targets[0].slice) if keyed else ""
         key_def = next((A.unparse(n.value) for n in ast.walk(irh.node) if isinstance(n, ast.Assign) and any(A.dotted(t) == key_txt for t in n.targets)), "")
-        identity = any(w in key_def for w in ("st_mtime", "stat(", "getmtime", "st_ino", "digest", "sha"))
+        identity = any(w in key_def for w in ("st_mtime", "getmtime", "st_ctime", "digest", "sha", "md5"))  # evidence of MODIFICATION: a file rewritten in place keeps its path, device and inode
         pm = A.parent_map(parse.node)
         clears = [c for c in A.calls_in(parse.node) if A.call_attr(c) == "clear_filecache" or (A.call_attr(c) == "clear" and cache_name in A.unparse(c))]
         first_import = min([c.lineno for c in A.calls_in(parse.node) if A.call_attr(c) in ("process_channel", "import_root_histogram")] or [10 ** 9])
@@ -272,7 +272,7 @@ def run(ctx):
         elif cleared_first:
             ctx.holds(r4, f"{R}::parse", "clears the file cache before importing")
         else:
-            ctx.violated(r4, parse, f"{cache_name}[{key_txt}]", f"the ROOT file cache is keyed by the resolved path only ({key_def}) and parse() never empties it: re-importing after the file at that path was rewritten (export to the same directory) returns the histograms of the previous file",
+            ctx.violated(r4, parse, f"{cache_name}[{key_txt}]", f"the ROOT file cache key ({key_def}) does not change when the file at that path is rewritten in place (path, device and inode stay the same) and parse() never empties the cache: re-importing after the file at that path was rewritten (export to the same directory) returns the histograms of the previous file",
                          expected="clear_filecache() at the start of parse(), or a key that includes file identity", found="no invalidation", node=parse.node)
     # writer handle
     wmod = repo.module(W)
@@ -533,8 +533,11 @@ def _roundtrip(ctx, rid, repo):
             "observations": [{"name": "ch", "data": [at("o0"), at("o1")]}],
             "measurements": [{"name": "meas", "config": {"poi": "mu", "parameters": [
                 {"name": "lumi", "auxdata": [at("L")], "sigmas": [at("S")], "bounds": [[at("LB"), at("UB")]], "inits": [at("L")], "fixed": True},
-                {"name": "mu", "inits": [at("V")], "bounds": [[at("MLO"), at("MHI")]]},
-                {"name": "pileup_a", "fixed": True}]}}],
+                {"name": "mu", "inits": [at("V")], "bounds": [[at("MLO"), at("MHI")]], "fixed": True},
+                {"name": "pileup_a", "fixed": True}]}},
+                {"name": "meas_all_free", "config": {"poi": "mu", "parameters": [
+                    {"name": "lumi", "auxdata": [at("L")], "sigmas": [at("S")], "bounds": [[at("LB"), at("UB")]], "inits": [at("L")]},
+                    {"name": "mu", "inits": [at("V")], "bounds": [[at("MLO"), at("MHI")]]}]}}],
             "version": "1.0.0"}
 
     def same(a, b):
@@ -566,9 +569,9 @@ def _roundtrip(ctx, rid, repo):
             ch = w.call_func(repo.func(W, "build_channel"), [sp, sp["channels"][0], sp["observations"]])
             name, obs, samples, pconfigs = w.call_func(repo.func(R, "process_channel"), [ch, Obj("resolver")])
             mtypes = {m["name"]: m["type"] for c_ in sp["channels"] for s_ in c_["samples"] for m in s_["modifiers"]}
-            me = w.call_func(repo.func(W, "build_measurement"), [sp["measurements"][0], mtypes])
             top = xmlmodel.Elem("Combination")
-            top.children.append(me)
+            for ms_ in sp["measurements"]:
+                top.children.append(w.call_func(repo.func(W, "build_measurement"), [ms_, mtypes]))
             meas = w.call_func(repo.func(R, "process_measurements"), [top], {"other_parameter_configs": pconfigs})
         except (Undecided, KeyError, TypeError, ValueError, IndexError, AttributeError) as e:
             ctx.unrecognised(rid, repo.func(W, "build_channel"), f"round trip [{lab}]", f"not interpretable: {type(e).__name__}: {e}")
@@ -594,9 +597,14 @@ def _roundtrip(ctx, rid, repo):
             for key_ in om:
                 if key_ in gm and not same(gm[key_], om[key_]):
                     problems.append((f"data of {key_[1]} {key_[0]} on {os_['name']}", show(om[key_]), show(gm[key_])))
-        if len(meas) != 1:
-            problems.append(("measurements", 1, len(meas)))
+        if len(meas) != 2:
+            problems.append(("measurements", 2, len(meas)))
         else:
+            cfg2 = meas[1]["config"]
+            pars2 = {p_["name"]: p_ for p_ in cfg2["parameters"]}
+            fixed2 = sorted(n for n, p_ in pars2.items() if p_.get("fixed") is True)
+            if meas[1]["name"] != "meas_all_free" or fixed2 != []:
+                problems.append(("constant parameters of the second measurement (none: a flag of the first measurement must not leak into it)", [], fixed2))
             cfgm = meas[0]["config"]
             if meas[0]["name"] != "meas" or cfgm["poi"] != "mu":
                 problems.append(("measurement name / POI", "meas / mu", f"{meas[0]['name']} / {cfgm['poi']}"))
@@ -605,8 +613,8 @@ def _roundtrip(ctx, rid, repo):
             if not (same(lum.get("auxdata"), [at("L")]) and same(lum.get("sigmas"), [at("S")]) and same(lum.get("inits"), [at("L")])):
                 problems.append(("luminosity value / width", "auxdata [L], sigmas [S], inits [L]", show({k: lum.get(k) for k in ("auxdata", "sigmas", "inits")})))
             fixed_got = sorted(n for n, p_ in pars.items() if p_.get("fixed") is True)
-            if fixed_got != ["lumi", "pileup_a"]:
-                problems.append(("constant parameters", ["lumi", "pileup_a"], fixed_got))
+            if fixed_got != ["lumi", "mu", "pileup_a"]:
+                problems.append(("constant parameters", ["lumi", "mu", "pileup_a"], fixed_got))
             mu = pars.get("mu", {})
             if not (same(mu.get("inits"), [at("V")]) and same(mu.get("bounds"), [[at("MLO"), at("MHI")]])):
                 problems.append(("normfactor settings", "inits [V], bounds [[MLO, MHI]]", show({k: mu.get(k) for k in ("inits", "bounds")})))
